@@ -147,21 +147,34 @@ def text_of(texts, name):
     return texts[name]
 
 
+STRUCT_DECLS = ["Parser", "Parser", "P", "MyGrammar_2", "r#type", "Parser<'a>", "Generic<T>", "Rule"]
+
+
+def shape(rng, source):
+    """How the derive is written down, which must not matter beyond what it says: the struct's name and generics, the grammar
+    handed over in one or several inline attributes, option attributes before or after the grammar."""
+    return {"struct_decl": rng.pick(STRUCT_DECLS), "pieces": (1 if source == "file" or rng.chance(2, 3) else 2 + rng.below(2)), "options_last": rng.chance(2, 3)}
+
+
 def make_step(rng, goods, bads, texts, root_index, option_sets=None):
     option_sets = option_sets or OPTION_SETS
     if rng.chance(1, 3):
         # a grammar program drawn from the seed (inline source: nothing to compile, so programs can be sampled)
         name = "gen:%d" % (rng.next() % 1_000_000)
-        return {"name": name, "source": "inline", "path": "", "text": text_of(texts, name), "options": list(rng.pick(option_sets)),
-                "include_grammar": False, "thread": rng.pick([0, 0, 1, 2, 3, 9])}
+        st = {"name": name, "source": "inline", "path": "", "text": text_of(texts, name), "options": list(rng.pick(option_sets)),
+              "include_grammar": False, "thread": rng.pick([0, 0, 1, 2, 3, 9])}
+        st.update(shape(rng, "inline"))
+        return st
     bad = rng.chance(1, 7)
     name = rng.pick(bads) if bad else rng.pick(goods)
     source = "file" if rng.chance(2, 3) else "inline"
     opts = list(rng.pick(option_sets))
     include = source == "file" and root_index == 0 and rng.chance(1, 4)
     thread = rng.pick([0, 0, 1, 2, 3, 9])
-    return {"name": name, "source": source, "path": "grammars/%s.pest" % name, "text": texts[name] if source == "inline" else "",
-            "options": opts, "include_grammar": include, "thread": thread}
+    st = {"name": name, "source": source, "path": "grammars/%s.pest" % name, "text": texts[name] if source == "inline" else "",
+          "options": opts, "include_grammar": include, "thread": thread}
+    st.update(shape(rng, source))
+    return st
 
 
 def gen_run(seed, goods, bads, texts, option_sets=None):
@@ -211,6 +224,7 @@ def gen_run(seed, goods, bads, texts, option_sets=None):
                     st["source"] = "inline" if st["source"] == "file" else "file"
                     st["text"] = texts[st["name"]] if st["source"] == "inline" else ""
                     st["include_grammar"] = False
+                    st["pieces"] = 1
             steps.append(st)
         else:
             steps.append(make_step(rng, goods, bads, texts, env["root"], option_sets))
@@ -285,7 +299,8 @@ class GenRefs:
     def step_for(self, key):
         k = json.loads(key)
         return {"name": k["name"], "source": k["source"], "path": "grammars/%s.pest" % k["name"], "text": text_of(self.texts, k["name"]) if k["source"] == "inline" else "",
-                "options": k["options"], "include_grammar": k["include_grammar"], "thread": 0}
+                "options": k["options"], "include_grammar": k["include_grammar"], "thread": 0,
+                "struct_decl": k.get("struct_decl", "Parser"), "pieces": k.get("pieces", 1), "options_last": k.get("options_last", True)}
 
     def compute(self, key, dump_dir=None):
         run = {"env": dict(NEUTRAL_ENV), "scenario": {"heap_pre": [0, 0], "steps": [self.step_for(key)]}}
